@@ -308,12 +308,38 @@ impl<'a> GeneratorState<'a> {
         let v = match left {
             ExprType::Absolute(varname, _, _) => self.compiler_state.get_variable(varname),
             ExprType::AbsoluteX(varname) => self.compiler_state.get_variable(varname),
+            ExprType::AbsoluteY(varname) => self.compiler_state.get_variable(varname),
             _ => unreachable!()
+        };
+        // Read-modify-write instructions can't index with Y, and can't be used on memories
+        // that are read and written at different addresses
+        let rmw = match v.memory {
+#[cfg(feature = "atari2600")]
+            VariableMemory::Superchip | VariableMemory::MemoryOnChip(_) => false,
+            _ => !matches!(left, ExprType::AbsoluteY(_)),
         };
         if let ExprType::Immediate(value) = right {
             if self.acc_in_use { self.sasm(PHA)?; }
             for _ in 0..*value {
-                if let Operation::Bls(_) = op {
+                if !rmw {
+                    // Shift each byte through the accumulator: loads and stores keep the carry
+                    let (first, shift, rotate) = match op {
+                        Operation::Bls(_) => (false, ASL, ROL),
+                        _ => (true, LSR, ROR),
+                    };
+                    self.asm(LDA, left, pos, first)?;
+                    if first && v.signed {
+                        // Arithmetic shift: the carry is the sign
+                        self.asm(CMP, &ExprType::Immediate(0x80), pos, false)?;
+                        self.asm(ROR, &ExprType::Nothing, pos, false)?;
+                    } else {
+                        self.asm(shift, &ExprType::Nothing, pos, false)?;
+                    }
+                    self.asm(STA, left, pos, first)?;
+                    self.asm(LDA, left, pos, !first)?;
+                    self.asm(rotate, &ExprType::Nothing, pos, false)?;
+                    self.asm(STA, left, pos, !first)?;
+                } else if let Operation::Bls(_) = op {
                     self.asm(ASL, left, pos, false)?;
                     self.asm(ROL, left, pos, true)?;
                 } else if v.signed {
